@@ -163,13 +163,17 @@ fn from_wire_bytes(plain: &Sk, usage: u64, s2k: &str, pw: &Password, seed: u64, 
         let key = s.derive_key(&pw.read(), sym.key_size()).map_err(|e| e.to_string())?;
         sym.encrypt_with_iv_regular(key.as_ref(), &iv, &mut secret).map_err(|e| e.to_string())?;
         out.push(255);
-        out.push(u8::from(sym));
-        s.to_writer(&mut out).map_err(|e| e.to_string())?;
+        let mut fields = vec![u8::from(sym)];
+        s.to_writer(&mut fields).map_err(|e| e.to_string())?;
+        // v6: one octet counting the S2K parameter fields that follow (cipher, specifier, IV)
+        if plain.v6() { out.push((fields.len() + iv.len()) as u8); }
+        out.extend(fields);
     } else {
         // legacy: the usage octet IS the cipher id, key = MD5(password)
         let key = digest(HashAlgorithm::Md5, &[&pw.read()]);
         sym.encrypt_with_iv_regular(&key, &iv, &mut secret).map_err(|e| e.to_string())?;
         out.push(u8::from(sym));
+        if plain.v6() { out.push(iv.len() as u8); }
     }
     out.extend_from_slice(&iv);
     out.extend_from_slice(&secret);
